@@ -257,9 +257,51 @@ def judge_multi(case, provider):
     return fails
 
 
+FOLDS = {"Europe/Berlin": [2021, 10, 31, 2, 30, 0], "America/New_York": [2021, 11, 7, 1, 30, 0], "Australia/Lord_Howe": [2021, 4, 4, 1, 45, 0]}
+
+
+def judge_fold_ack(case, provider):
+    """history on one Alarms object: acknowledgements (or snoozes) given as the two occurrences of one ambiguous wall time - equal
+    and equally hashed as Python values, different instants - one after the other; the last call counts"""
+    import dateutil.tz
+    zone, wall = case["zone"], FOLDS[case["zone"]]
+    tz = zoneinfo.ZoneInfo(zone) if case["src"] == "zoneinfo" else dateutil.tz.gettz(zone)
+    occ = [datetime(*wall, tzinfo=tz, fold=f) for f in (0, 1)]
+    inst_ = [o.astimezone(UTC) for o in occ]
+    trig = inst_[0] + (inst_[1] - inst_[0]) / 2           # between the two occurrences
+    al = Alarm()
+    al.TRIGGER = trig
+    A = Alarms()
+    A.add_alarm(al)
+    fails = []
+    for step, f in enumerate(case["order"]):
+        if case["what"] == "ack":
+            A.acknowledge_until(occ[f])
+        else:
+            A.acknowledge_until(inst_[0] - timedelta(hours=5))
+            A.snooze_until(occ[f])
+        times = A.times
+        active = A.active
+        if case["what"] == "ack":
+            want_active = trig > inst_[f]
+            got_ack = times[0].acknowledged
+            if got_ack is None or got_ack.astimezone(UTC) != inst_[f]:
+                fails.append(Failure("C15.acknowledged-until", "acknowledged-until-is-another-occurrence-of-the-wall-time", f"step {step} fold={f}: {got_ack!r} expected {inst_[f]!r}"))
+        else:
+            want_active = inst_[f] > inst_[0] - timedelta(hours=5)      # snoozed until after the acknowledgement: always active
+            want_trigger = inst_[f] if inst_[f] > trig else trig
+            if times[0].trigger.astimezone(UTC) != want_trigger:
+                fails.append(Failure("C15.snooze-trigger", "snoozed-trigger-is-another-occurrence-of-the-wall-time", f"step {step} fold={f}: {times[0].trigger!r} expected {want_trigger!r}"))
+        if bool(active) != want_active:
+            fails.append(Failure("C15.active-iff", "active-differs-for-fold-occurrence", f"step {step} fold={f}: active={bool(active)} expected {want_active}"))
+    return fails[:3]
+
+
 def judge(case):
     provider = case.get("provider", "zoneinfo")
     sut.reset(provider)
+    if case.get("kind") == "fold-ack":
+        return judge_fold_ack(case, provider)
     if case.get("kind") == "multi":
         return judge_multi(case, provider)
     if case["mode"] == "dtstamp" and case.get("snooze") is not None:
@@ -329,6 +371,8 @@ def _is_orig(case, rep):
 
 
 def info(case):
+    if case.get("kind") == "fold-ack":
+        return {"nontrivial": len(case["order"]) >= 2, "classes": ["fold-occurrences", "fold:" + case["what"]]}
     if case.get("kind") == "multi":
         return {"nontrivial": len(case["alarms"]) >= 2, "classes": ["multi-alarm", "mode:" + case["mode"]]}
     offs = [case.get("alarm_ack"), case.get("comp_ack"), case.get("snooze")]
@@ -396,7 +440,14 @@ def streams(tier):
         Stream("decision-table", "fixed", 0, 16, _rows, True, True),
         Stream("random-instants", "hyp", n, 16, _hyp),
         Stream("several-alarms", "hyp", n, 8, _multi),
+        Stream("fold-occurrences", "fixed", 0, 2, _fold_rows, True, True),
     ]
+
+
+def _fold_rows():
+    return [{"kind": "fold-ack", "provider": p, "zone": z, "src": src, "what": w, "order": o}
+            for p in ("zoneinfo", "pytz") for z in FOLDS for src in ("zoneinfo", "dateutil") for w in ("ack", "snooze")
+            for o in ([0, 1], [1, 0], [1], [0], [0, 1, 0])]
 
 
 LEVEL_TEXT = ("The finite decision table of all orderings (including equality) of the four instants, each possibly absent, across "
